@@ -160,6 +160,11 @@ func addPathValueToRowStructure(parent json.Structure, path ObjectPath, val valu
 	}
 
 	if path.Child == nil {
+		if _, ok := obj.Value(path.Name).(json.Object); ok {
+			// fields like "a.b" have already built an object under this name: a second member of that name
+			// would shadow it when the data is read (the other order of the fields is refused below)
+			return nil, errors.New(fmt.Sprintf("field name %q conflicts with another field that is an object", path.Name))
+		}
 		obj.Add(path.Name, ParseValueToStructure(val))
 	} else {
 		valueStructure, err := addPathValueToRowStructure(obj.Value(path.Name), path.Child.(ObjectPath), val, fieldLen)
